@@ -146,8 +146,9 @@ def parseSize (ts : List Token) : FR (Size USz × List Token) := do
     let ts ← dots 2 ts
     let (stop, ts) ← nextOrErr ts
     let stop := sizeBound stop "MAX" SIZE_MAX
-    -- `any`: the two other patterns of the `matches!` are unreachable after the filters
-    if start.isNone && stop.isNone then
+    -- `any`: the two other patterns of the `matches!` are unreachable after the filters;
+    -- `(0..MAX, ...)` is extensible and takes the general path
+    if start.isNone && stop.isNone && peekIsSep ')' ts then
       let ts ← nextSepEq ')' ts
       pure (.any, ts)
     else
